@@ -391,9 +391,8 @@ func diffClass(got, want string) string {
 
 // roundTrip serialises a, parses the result into b and compares with the model
 // minus the entries whose key and value are both empty.
-func roundTrip(a, b *fasthttp.Args, m *model, useParseString bool) (key, what string, qs []byte, skippedEmpty int) {
+func roundTrip(a, b *fasthttp.Args, m *model, useParseString bool) (key, what string, qs []byte, skippedEmpty int, exp []ent) {
 	qs = append([]byte(nil), a.QueryString()...)
-	var exp []ent
 	for _, e := range m.es {
 		if e.K == "" && e.V == "" {
 			skippedEmpty++
@@ -409,14 +408,18 @@ func roundTrip(a, b *fasthttp.Args, m *model, useParseString bool) (key, what st
 	}
 	got := listAll(b, false)
 	if b.Len() != len(exp) || len(got) != len(exp) {
-		return "roundtrip-entry-count", fmt.Sprintf("QueryString()=%q parsed to %d entries %q, model (minus empty/empty) has %d: %v", qs, b.Len(), got, len(exp), exp), qs, skippedEmpty
+		return "roundtrip-entry-count", fmt.Sprintf("QueryString()=%q parsed to %d entries %q, model (minus empty/empty) has %d: %v", qs, b.Len(), got, len(exp), exp), qs, skippedEmpty, exp
 	}
 	for i := range exp {
 		if got[i].K != exp[i].K {
-			return "roundtrip-key-" + diffClass(got[i].K, exp[i].K), fmt.Sprintf("QueryString()=%q entry %d parsed key %q, model %q", qs, i, got[i].K, exp[i].K), qs, skippedEmpty
+			return "roundtrip-key-" + diffClass(got[i].K, exp[i].K), fmt.Sprintf("QueryString()=%q entry %d parsed key %q, model %q", qs, i, got[i].K, exp[i].K), qs, skippedEmpty, exp
+		}
+		if got[i].V != exp[i].V && exp[i].NoEq && exp[i].V == "" {
+			// a key-only entry came back with a value (old contents of a re-used slot)
+			return "roundtrip-key-only-entry-has-value", fmt.Sprintf("QueryString()=%q entry %d (key-only %q) parsed value %q, model has no value", qs, i, exp[i].K, got[i].V), qs, skippedEmpty, exp
 		}
 		if got[i].V != exp[i].V {
-			return "roundtrip-value-" + diffClass(got[i].V, exp[i].V), fmt.Sprintf("QueryString()=%q entry %d (key %q) parsed value %q, model %q", qs, i, exp[i].K, got[i].V, exp[i].V), qs, skippedEmpty
+			return "roundtrip-value-" + diffClass(got[i].V, exp[i].V), fmt.Sprintf("QueryString()=%q entry %d (key %q) parsed value %q, model %q", qs, i, exp[i].K, got[i].V, exp[i].V), qs, skippedEmpty, exp
 		}
 	}
 	// has '=' of the parsed Args is visible only in its own serialisation: one
@@ -425,16 +428,45 @@ func roundTrip(a, b *fasthttp.Args, m *model, useParseString bool) (key, what st
 	if len(exp) > 0 {
 		toks := bytes.Split(b.QueryString(), []byte("&"))
 		if len(toks) != len(exp) {
-			return "roundtrip-reserialised-token-count", fmt.Sprintf("parsed Args has %d entries but serialises to %d tokens: %q", len(exp), len(toks), b.QueryString()), qs, skippedEmpty
+			return "roundtrip-reserialised-token-count", fmt.Sprintf("parsed Args has %d entries but serialises to %d tokens: %q", len(exp), len(toks), b.QueryString()), qs, skippedEmpty, exp
 		}
 		for i, tk := range toks {
 			hasEq := bytes.IndexByte(tk, '=') >= 0
 			if hasEq == exp[i].NoEq {
-				return "roundtrip-has-eq", fmt.Sprintf("QueryString()=%q entry %d (key %q): parsed has '='=%v, model has '='=%v", qs, i, exp[i].K, hasEq, !exp[i].NoEq), qs, skippedEmpty
+				return "roundtrip-has-eq", fmt.Sprintf("QueryString()=%q entry %d (key %q): parsed has '='=%v, model has '='=%v", qs, i, exp[i].K, hasEq, !exp[i].NoEq), qs, skippedEmpty, exp
 			}
 		}
 	}
-	return "", "", qs, skippedEmpty
+	return "", "", qs, skippedEmpty, exp
+}
+
+// primeArgs leaves old state in the first slots of a re-used Args (long values,
+// no-value flags, long keys), the way an earlier request would, and resets it.
+func primeArgs(a *fasthttp.Args, r *rand.Rand) {
+	n := 3 + r.Intn(8)
+	if r.Intn(2) == 0 {
+		var b strings.Builder
+		for j := 0; j < n; j++ {
+			if j > 0 {
+				b.WriteByte('&')
+			}
+			if r.Intn(3) == 0 {
+				fmt.Fprintf(&b, "stale-key-only-%d", j)
+			} else {
+				fmt.Fprintf(&b, "stale-key-%d=STALE-VALUE-%d", j, j)
+			}
+		}
+		a.Parse(b.String())
+	} else {
+		for j := 0; j < n; j++ {
+			if r.Intn(3) == 0 {
+				a.AddNoValue(fmt.Sprintf("stale-key-only-%d", j))
+			} else {
+				a.Add(fmt.Sprintf("stale-key-%d", j), fmt.Sprintf("STALE-VALUE-%d", j))
+			}
+		}
+	}
+	a.Reset()
 }
 
 func hostileBits(s string) int {
@@ -466,7 +498,7 @@ func hostileBits(s string) int {
 func TestC28(t *testing.T) {
 	r := mon.Start(t, "C28")
 	defer r.Finish()
-	r.Rule("case = sequence of 1-12 (thorough 1-24) operations Add/Set/SetNoValue/Del/AddNoValue (string and Bytes API variants) over 4-16 fixed hostile keys (empty, space, & = + % NUL ; non-ASCII, case twins) plus random byte keys, values from a hostile list or random bytes; the Args object is reused (Reset) across sequences or fresh; after every operation Len/All|VisitAll/Has/HasBytes/Peek/PeekBytes/PeekMulti|PeekMultiBytes are compared with the model for every key; QueryString->ParseBytes|Parse round trip at one inner point and at the end. distinct = (set of op kinds, max duplicates of a key, Set hit a duplicated key, Del removed >1 / from the middle, hostile byte kinds, empty/empty entry present); non-trivial = some key was duplicated, or Del removed an entry, or a hostile byte occurred")
+	r.Rule("case = sequence of 1-12 (thorough 1-24) operations Add/Set/SetNoValue/Del/AddNoValue (string and Bytes API variants) over 4-16 fixed hostile keys (empty, space, & = + % NUL ; non-ASCII, case twins) plus random byte keys, values from a hostile list or random bytes; the Args under test and the parse target are re-used across sequences (Reset) or fresh, in half of the cases primed inside the case with 3-10 long stale values / no-value flags; in half of the cases the sequence continues on the PARSED Args after the inner round trip (the old Args becomes the final parse target); after every operation Len/All|VisitAll/Has/HasBytes/Peek/PeekBytes/PeekMulti|PeekMultiBytes are compared with the model for every key; QueryString->ParseBytes|Parse round trip at one inner point and at the end. distinct = (set of op kinds, max duplicates of a key, Set hit a duplicated key, Del removed >1 / from the middle, hostile byte kinds, empty/empty entry present); non-trivial = some key was duplicated, or Del removed an entry, or a hostile byte occurred")
 	r.Assume("model: Set/SetNoValue replace only the FIRST entry with the key and leave later duplicates untouched (literal reading of the statement; args.go setArg does the same); AddNoValue is Add without '='; Peek of a missing key is compared by content only (nil vs empty not judged)")
 	r.Assume("has '=' of a parsed Args is read from its own QueryString() tokens (no accessor exists); entries with empty key and empty value are excluded from the round-trip comparison as the statement says and counted as skipped_empty_entries")
 	r.Assume("byte slices handed to the *Bytes* variants are overwritten right after the call: Args is expected to copy its inputs (README: all functions copy)")
@@ -490,13 +522,25 @@ func TestC28(t *testing.T) {
 				continue
 			}
 			rnd := r.Rand("seq", i)
-			a := shared
+			// a = the Args under test, b = the parse target of the round trip. Both are
+			// re-used from earlier sequences (old values / flags in their slots) or
+			// fresh, and in half of the cases primed inside the case (replayable).
+			a, b := shared, parsed
 			if rnd.Intn(4) == 0 {
 				a = &fasthttp.Args{}
 				ev["fresh_args"]++
 			} else {
 				a.Reset()
 			}
+			if rnd.Intn(8) == 0 {
+				b = &fasthttp.Args{}
+			}
+			if rnd.Intn(2) == 0 {
+				primeArgs(a, rnd)
+				primeArgs(b, rnd)
+				ev["primed_args"]++
+			}
+			continueOnParsed := rnd.Intn(2) == 0
 			nkeys := 4 + rnd.Intn(len(fixedKeys)-3)
 			if nkeys > len(fixedKeys) {
 				nkeys = len(fixedKeys)
@@ -568,7 +612,7 @@ func TestC28(t *testing.T) {
 						break
 					}
 					if s == rtAt || s == nops-1 {
-						key, what, qs, sk := roundTrip(a, parsed, &m, (i+s)%3 == 0)
+						key, what, qs, sk, exp := roundTrip(a, b, &m, (i+s)%3 == 0)
 						ev["roundtrips"]++
 						ev["roundtrip_entries"] += len(m.es) - sk
 						ev["skipped_empty_entries"] += sk
@@ -586,8 +630,21 @@ func TestC28(t *testing.T) {
 							r.Violation(i, "querystring-mutates-args", fmt.Sprintf("after %v and QueryString(): %s", ops, what), map[string]any{"ops": fmt.Sprint(ops)})
 							break
 						}
+						if s == rtAt && s != nops-1 && continueOnParsed {
+							// go on with the PARSED Args (its state is fixed by the statement: the
+							// same ordered list minus empty/empty entries); the old Args becomes the
+							// parse target of the final round trip, slots full of old values.
+							a, b = b, a
+							m.es = append([]ent(nil), exp...)
+							ev["continued_on_parsed_args"]++
+							if key, what := compare(a, &m, o, keys, s); key != "" {
+								failed = true
+								r.Violation(i, "parsed-"+key, fmt.Sprintf("after %v, QueryString()=%q parsed into a re-used Args: %s", ops, qs, what), map[string]any{"ops": fmt.Sprint(ops), "querystring": string(qs), "model": m.String(), "what": what})
+								break
+							}
+						}
 						if s == nops-1 && maxDup > 1 && hb&^1 != 0 && r.WantSample() {
-							r.Sample(map[string]any{"ops": fmt.Sprint(ops), "model": m.String(), "querystring": string(qs), "reparsed": fmt.Sprintf("%q", listAll(parsed, false))})
+							r.Sample(map[string]any{"ops": fmt.Sprint(ops), "model": m.String(), "querystring": string(qs), "reparsed": fmt.Sprintf("%q", listAll(b, false))})
 						}
 					}
 				}
@@ -619,4 +676,6 @@ func TestC28(t *testing.T) {
 	r.Require("set_on_duplicated_key", n/100)
 	r.Require("del_from_middle", n/100)
 	r.Require("skipped_empty_entries", 1)
+	r.Require("continued_on_parsed_args", n/10)
+	r.Require("primed_args", n/4)
 }
